@@ -204,6 +204,9 @@ def scale_specs(tier, seed):
     for (L, mode) in ((2048, "csd"), (2304, "csd"), (2048, "auto")):          # long segments
         specs.append(dict(seed=rnd.randrange(2 ** 31), N=4096, L=L, K=3, order=rnd.choice([-1, 0]), mode=mode, data="white", win="hann",
                           omega=0.5 + rnd.random(), cuda=False, starts="random"))
+    for (L, order, mode) in ((5000, 2, "csd"), (4608, 1, "auto"), (8192, 2, "auto")):   # segments beyond 4096 samples with polynomial detrending
+        specs.append(dict(seed=rnd.randrange(2 ** 31), N=12000, L=L, K=2, order=order, mode=mode, data="sine", win="hann",
+                          omega=0.5 + rnd.random(), cuda=False, starts="random"))
     for k in range(6):                                                         # huge constant offset, order 0 only (see DESIGN 9.4)
         specs.append(dict(seed=rnd.randrange(2 ** 31), N=4096, L=rnd.choice([256, 600, 1000]), K=rnd.choice([1, 3, 9]), order=0, mode=["auto", "csd"][k % 2],
                           data="hugeoffset", win="kaiser", omega=0.3 + 2.5 * rnd.random(), cuda=False, starts="random"))
